@@ -157,7 +157,6 @@ Proof.
   destruct (C02.Main.ChunkSize_val Hc2) as [Hcs Hbr].
   assert (Hhs : Z.of_nat C02.Main.HashSize = 32) by (unfold C02.Main.HashSize; rewrite H3; reflexivity).
   destruct (read_back H C02.Main.ChunkSize C02.Main.Branches C02.Main.HashSize) with (segs := segs) as (u & Hu & Hrb); try assumption; try lia.
-  - rewrite Hbr, Hcs, Hhs. reflexivity.
   - exact (C02.Main.source_capacity Hc2 (concat segs) Hsz).
   - exists u. split; [exact Hu|]. intros Hnc. destruct (Hrb Hnc) as (j & Ho & Hoff & Hst). exists j.
     split; [exact Ho|]. split; [exact Hoff|]. rewrite Hcs, Hhs in Hst. rewrite H1, H3. exact Hst.
